@@ -217,12 +217,14 @@ class FakeValue:
     @property
     def value(self):
         self.s.point(("rd", self.name))
+        self.s.log("rd", self.name, self._v)
         return self._v
 
     @value.setter
     def value(self, v):
         self.s.point(("wr", self.name))
         self._v = v
+        self.s.log("wr", self.name, v)
 
 
 class FakeRLock:
@@ -233,6 +235,7 @@ class FakeRLock:
         me = self.s.name()
         self.s.point(("acquire", self.name), lambda: self.owner in (None, me))
         self.owner, self.count = me, self.count + 1
+        self.s.log("racquire", self.name, self.count)
         return True
 
     def release(self):
@@ -240,6 +243,7 @@ class FakeRLock:
         self.count -= 1
         if self.count == 0:
             self.owner = None
+        self.s.log("rrelease", self.name, self.count)
 
     def __enter__(self):
         self.acquire()
@@ -278,7 +282,7 @@ class FakeList:
         self.s.point((op, self.name))
 
     def append(self, x):
-        self._p("append"); self.items.append(x)
+        self._p("append"); self.items.append(x); self.s.log("lappend", self.name)
 
     def extend(self, xs):
         self._p("extend"); self.items.extend(xs)
@@ -291,6 +295,8 @@ class FakeList:
 
     def __setitem__(self, i, v):
         self._p("setitem"); self.items[i] = v
+        if not isinstance(i, slice):
+            self.s.log("lsetitem", self.name, i)
 
     def __delitem__(self, i):
         self._p("delitem"); del self.items[i]
